@@ -278,6 +278,44 @@ def Attached.lineno : Attached → Option Nat
   | .line l => if l > 0 then some l else none
   | .nothing => none
 
+/-! ## code generator bookkeeping
+
+`CodeGenerator::{set_line, set_line_from_span, push_span, pop_span, add, add_with_span}`: the
+current line, the stack of spans (head = top) and the instructions written so far.  The compiler
+is any script of these calls. -/
+structure Cg where
+  currentLine : Nat        -- u16, `0` initially
+  spanStack : List Span
+  instrs : Instrs
+  deriving Repr, DecidableEq
+
+def Cg.new : Cg := ⟨0, [], Instrs.empty⟩
+
+inductive CgOp where
+  | setLine (line : Nat)        -- `set_line`, `set_line_from_span(span)` with `span.start_line`
+  | pushSpan (span : Span)      -- pushes and sets the line from the span
+  | popSpan                     -- only pops
+  | add                         -- `add(instr)`: location from the current line / innermost span
+  | addWithSpan (span : Span)   -- `add_with_span(instr, span)`
+  deriving Repr, DecidableEq
+
+/-- `CodeGenerator::add`: the innermost span if it starts on the current line, else the line -/
+def Cg.add (c : Cg) : Cg :=
+  match c.spanStack with
+  | sp :: _ =>
+    if sp.startLine = c.currentLine then { c with instrs := (c.instrs.addWithSpan sp).1 }
+    else { c with instrs := (c.instrs.addWithLine c.currentLine).1 }
+  | [] => { c with instrs := (c.instrs.addWithLine c.currentLine).1 }
+
+def Cg.step (c : Cg) : CgOp → Cg
+  | .setLine l => { c with currentLine := l }
+  | .pushSpan sp => { c with spanStack := sp :: c.spanStack, currentLine := sp.startLine }
+  | .popSpan => { c with spanStack := c.spanStack.tail }
+  | .add => c.add
+  | .addWithSpan sp => { c with instrs := (c.instrs.addWithSpan sp).1 }
+
+def cgRun (ops : List CgOp) (c : Cg) : Cg := ops.foldl Cg.step c
+
 /-! ## render_debug_info -/
 
 /-- the `i ^^^` line: printed when the span is on one line; `(spaces, carets)`.
